@@ -231,19 +231,19 @@ theorem absMap_filter (enc : Bytes → Bytes) (dec : Bytes → Option Bytes)
     cases hx : dec x with
     | none =>
       have e1 : absMap dec ((x, w) :: t) = absMap dec t := by
-        simp [absMap, List.filterMap_cons, hx]
+        simp [absMap, hx]
       rw [e1, ← ih]
       split
-      · simp [absMap, List.filterMap_cons, hx]
+      · simp [absMap, hx]
       · rfl
     | some a =>
       have e := hed _ _ hx
       subst e
       have e1 : absMap dec ((enc a, w) :: t) = (a, w) :: absMap dec t := by
-        simp [absMap, List.filterMap_cons, hx]
+        simp [absMap, hx]
       rw [e1, List.filter_cons, ← ih, ← hP a]
       split
-      · simp [absMap, List.filterMap_cons, hx]
+      · simp [absMap, hx]
       · rfl
 
 theorem sorted_absMap (enc : Bytes → Bytes) (dec : Bytes → Option Bytes)
@@ -264,10 +264,9 @@ theorem sorted_absMap (enc : Bytes → Bytes) (dec : Bytes → Option Bytes)
 /-- writing `enc k` in the store = writing `k` in the abstract map (no condition on where the
 undecodable keys lie) -/
 theorem absMap_set (enc : Bytes → Bytes) (dec : Bytes → Option Bytes)
-    (hde : ∀ a, dec (enc a) = some a)
     (hed : ∀ x a, dec x = some a → x = enc a)
     (hmono : ∀ a b, bytesLt (enc a) (enc b) = bytesLt a b)
-    (k : Bytes) (v : ν) (s : List (Bytes × ν)) (hs : Sorted s) :
+    (k : Bytes) (hde : dec (enc k) = some k) (v : ν) (s : List (Bytes × ν)) (hs : Sorted s) :
     absMap dec (set (enc k) v s) = set k v (absMap dec s) := by
   rw [set_eq_filter (enc k) v s hs, set_eq_filter k v _ (sorted_absMap enc dec hed hmono s hs)]
   rw [absMap_append]
@@ -278,7 +277,7 @@ theorem absMap_set (enc : Bytes → Bytes) (dec : Bytes → Option Bytes)
   rw [e1]
   have e3 : absMap dec ((enc k, v) :: s.filter (fun p => bytesLt (enc k) p.1))
       = (k, v) :: absMap dec (s.filter (fun p => bytesLt (enc k) p.1)) := by
-    simp [absMap, List.filterMap_cons, hde]
+    simp [absMap, hde]
   rw [e3, e2]
 
 /-- the undecodable part of the store (bookkeeping keys) -/
